@@ -19,3 +19,19 @@ class Range:
         index = self._last_index
         self._last_index = index + 1
         return index
+
+
+class Limits(Range):
+    def __init__(self, description):
+        super().__init__(description)
+        self._compute()
+
+    def _compute(self):
+        self._lower = 1
+        self._finish()
+
+    def _finish(self):
+        self._upper = self._lower + 1
+
+    def upper(self):
+        return self._upper
